@@ -112,33 +112,56 @@ let linearizable (type st) (mut : st -> Peers.pop -> st * Peers.pout)
     end in
   go (Stdlib.List.init n (fun _ -> 0)) init
 
+(* one concurrent history: the observed initial state, the per-thread results and the observed
+   final state against the specification (oracle) and the concrete model *)
+let judge_history ids keys pre thops (init_s : string) (res_s : string) (final_s : string) : string list =
+  let out = ref [] in
+  let res = Stdlib.List.map (fun t -> if t = "-" then [] else split_on ';' t) (split_on '!' res_s) in
+  if Stdlib.List.length res <> Stdlib.List.length thops then failwith "thread count";
+  let ths = Array.of_list (Stdlib.List.map2 (fun ops rs ->
+      if Stdlib.List.length ops <> Stdlib.List.length rs then failwith "op count";
+      Array.of_list (Stdlib.List.map2 parse_cev ops rs)) thops res) in
+  let init = parse_step init_s and final = parse_step final_s in
+  (* specification side: the oracle *)
+  let s0 = Stdlib.List.fold_left (fun s op -> fst (Peers.sstep s op)) Peers.pspec_empty pre in
+  let sobs s i k = Peers.sobserve i k Peers.PUnit s in
+  if sobs s0 ids keys <> init then out := "BAD\tside=impl\tclause=state after the sequential prefix" :: !out
+  else if not (linearizable Peers.sstep sobs s0 ths (fun s -> sobs s ids keys = final)) then
+    out := "BAD\tside=impl\tclause=not linearizable" :: !out;
+  (* concrete model side *)
+  let m0 = Stdlib.List.fold_left (fun s op -> fst (Peers.pstep s op)) Peers.preg_empty pre in
+  let mobs s i k = Peers.observe i k Peers.PUnit s in
+  if mobs m0 ids keys <> init then out := "DIFF\tfields=init" :: !out
+  else if not (linearizable Peers.pstep mobs m0 ths (fun s -> mobs s ids keys = final)) then
+    out := "DIFF\tfields=no_sequential_order(model)" :: !out;
+  !out
+
+(* rounds=<n>: the same history n times, each round on a fresh registry brought to the same
+   state by `pre` (res= and final= carry one entry per round, separated by '@').  Every round is
+   an ordinary concurrent history and is judged like one; the first round that fails is reported. *)
 let step_conc f o =
   let ids = nlist (get f "ids") and keys = nlist (get f "keys") in
   let pre = let s = get f "pre" in if s = "-" then [] else Stdlib.List.map parse_op (split_on ';' s) in
   let thops = Stdlib.List.map (fun t -> if t = "-" then [] else Stdlib.List.map parse_cop (split_on ';' t)) (split_on '!' (get f "th")) in
-  let out = ref [] in
-  (match get_opt o "crash" with
-   | Some c -> out := ("BAD\tside=impl\tclause=crash:" ^ c) :: !out
-   | None ->
-     let res = Stdlib.List.map (fun t -> if t = "-" then [] else split_on ';' t) (split_on '!' (get o "res")) in
-     if Stdlib.List.length res <> Stdlib.List.length thops then failwith "thread count";
-     let ths = Array.of_list (Stdlib.List.map2 (fun ops rs ->
-         if Stdlib.List.length ops <> Stdlib.List.length rs then failwith "op count";
-         Array.of_list (Stdlib.List.map2 parse_cev ops rs)) thops res) in
-     let init = parse_step (get o "init") and final = parse_step (get o "final") in
-     (* specification side: the oracle *)
-     let s0 = Stdlib.List.fold_left (fun s op -> fst (Peers.sstep s op)) Peers.pspec_empty pre in
-     let sobs s i k = Peers.sobserve i k Peers.PUnit s in
-     if sobs s0 ids keys <> init then out := "BAD\tside=impl\tclause=state after the sequential prefix" :: !out
-     else if not (linearizable Peers.sstep sobs s0 ths (fun s -> sobs s ids keys = final)) then
-       out := "BAD\tside=impl\tclause=not linearizable" :: !out;
-     (* concrete model side *)
-     let m0 = Stdlib.List.fold_left (fun s op -> fst (Peers.pstep s op)) Peers.preg_empty pre in
-     let mobs s i k = Peers.observe i k Peers.PUnit s in
-     if mobs m0 ids keys <> init then out := "DIFF\tfields=init" :: !out
-     else if not (linearizable Peers.pstep mobs m0 ths (fun s -> mobs s ids keys = final)) then
-       out := "DIFF\tfields=no_sequential_order(model)" :: !out);
-  !out
+  match get_opt o "crash" with
+  | Some c -> ["BAD\tside=impl\tclause=crash:" ^ c]
+  | None ->
+    (match get_opt f "rounds" with
+     | None -> judge_history ids keys pre thops (get o "init") (get o "res") (get o "final")
+     | Some nr ->
+       let nr = int_of_string ("0x" ^ nr) in
+       let init_s = get o "init" in
+       begin
+         let ress = split_on '@' (get o "res") and finals = split_on '@' (get o "final") in
+         if Stdlib.List.length ress <> nr || Stdlib.List.length finals <> nr then failwith "round count";
+         let rec first r rs fs = match rs, fs with
+           | x :: rs', y :: fs' ->
+             (match judge_history ids keys pre thops init_s x y with
+              | [] -> first (r + 1) rs' fs'
+              | reps -> Stdlib.List.map (fun rep -> Printf.sprintf "%s:round%d" rep r) reps)
+           | _ -> [] in
+         first 0 ress finals
+       end)
 
 let step _ cs os =
   let f = fields cs and o = fields os in
